@@ -333,6 +333,7 @@ type Evidence struct {
 
 func RunCheck(opt Options) int {
 	start := time.Now()
+	shapeDir = filepath.Join(opt.VerifDir, "ledger")
 	P, err := LoadProgram(opt.Repo)
 	if err != nil {
 		fmt.Fprintln(os.Stderr, "gowp: engine error:", err)
@@ -528,6 +529,7 @@ func RunCheck(opt Options) int {
 	known := loadKnownFindings(filepath.Join(opt.VerifDir, "KNOWN_FINDINGS.txt"))
 	ledgerPath := filepath.Join(opt.VerifDir, "ledger", opt.Prop+".json")
 	if opt.WriteLed {
+		writeShapes(P, filepath.Join(opt.VerifDir, "ledger"))
 		var led []string
 		for _, n := range names {
 			if contractLevel(byName[n].Kind) && len(byName[n].Failed) == 0 {
@@ -706,6 +708,7 @@ func RunCheck(opt Options) int {
 		"vacuous":                  vacuous,
 		"samples":                  samples,
 		"ledger_obligations":       len(ledger),
+		"rebound":                  P.Rebound,
 	}
 	// blocks that lie only on paths whose assumptions are unsatisfiable: dead code, or an
 	// inconsistency of the model (reported, so that a vacuous stretch of a function is visible)
